@@ -60,10 +60,14 @@ deriving Repr, Inhabited
 
 def St.init : St := ⟨none, 0⟩
 
-/-- a new `Store` after `LoadCheckpoint` with a savepoint URI: the id counter is the loaded savepoint's id
-(`s.state.checkpointID = loadedCheckpoint.Id`, regenerated as `Facts.c12LoadCounterFromLoaded`); job snapshot
-files in the local storage are not consulted on this path -/
-def loadFromSavepoint (id : Nat) : St := ⟨none, id⟩
+/-- a new `Store` after `LoadCheckpoint` with a savepoint URI (code after the D49 repair): the id counter is
+the maximum of the loaded savepoint's id and the highest id among the job snapshot files in the local storage
+(`localMax`, 0 if there is none); the shape `max(loadedCheckpoint.Id, newestLocalID)` is regenerated as
+`Facts.c12LoadCounterMaxLocal` -/
+def loadFromSavepoint (id localMax : Nat) : St := ⟨none, max id localMax⟩
+
+/-- the rule of the unrepaired code (D49): the counter is the savepoint's id, local files are ignored -/
+def loadFromSavepointOld (id : Nat) : St := ⟨none, id⟩
 
 inductive Call where
   | create (ops srs : List Nat)
